@@ -1400,3 +1400,44 @@ fire("chained-effect-validate-raises-runtimeerror", ["C05", "C12"], "R-EH", CP,
      "class EffectError(RuntimeError):\n    pass\n\n\nclass ChainedEffect(Effect[A]):",
      also=[("        for effect in self.effects:\n            effect.validate(options)\n", "        for effect in self.effects:\n            try:\n                effect.validate(options)\n            except EvaluationError as e:\n                raise EffectError(repr(effect)) from e\n"),
            ("from .option import Option\n", "from .exceptions import EvaluationError\nfrom .option import Option\n")])
+
+# ------------------------------------------------------------------ round 8
+fire("args-keys-str-only-fast-path", ["C01", "C03"], "R-RK", AR,
+     "        return set().union(*(arg.keys(options) for arg in self.args))\n",
+     "        keys: Set[str] = set()\n        for arg in self.args:\n            if type(arg).__name__ == \"Option\" and arg.domain is MISSING and dotted_key_exists(arg.key, options):\n                provided = get_dotted_key(arg.key, options)\n                if not isinstance(provided, str):\n                    keys.add(arg.key)\n                    continue\n            keys |= arg.keys(options)\n        return keys\n",
+     also=[("from .types import Evaluatable, MaybeEvaluatable, Options\n", "from confectioner.templating import dotted_key_exists, get_dotted_key\n\nfrom ._missing import MISSING\nfrom .types import Evaluatable, MaybeEvaluatable, Options\n")],
+     note="a provided list / mapping holding templated strings is answered with the key alone: the keys it refers to drop out of the fingerprint")
+silent("args-keys-fast-path-for-scalars-only", ["C01", "C03", "C10", "C13"], AR,
+       "        return set().union(*(arg.keys(options) for arg in self.args))\n",
+       "        keys: Set[str] = set()\n        for arg in self.args:\n            if type(arg).__name__ == \"Option\" and arg.domain is MISSING and dotted_key_exists(arg.key, options):\n                provided = get_dotted_key(arg.key, options)\n                if not isinstance(provided, (str, list, tuple, dict)):\n                    keys.add(arg.key)\n                    continue\n            keys |= arg.keys(options)\n        return keys\n",
+       also=[("from .types import Evaluatable, MaybeEvaluatable, Options\n", "from confectioner.templating import dotted_key_exists, get_dotted_key\n\nfrom ._missing import MISSING\nfrom .types import Evaluatable, MaybeEvaluatable, Options\n")],
+       note="the same fast path restricted to values that can hold no reference")
+fire("withoptions-keys-unfiltered-when-covered", ["C02", "C01", "C03"], "R-PO", O,
+     "        return {\n            key\n            for key in self.evaluatable.keys(self._options(options))\n            if not self._is_preset(key, options)\n        }",
+     "        mixed = self._options(options)\n        inner = self.evaluatable.keys(mixed)\n        if mixed == options:\n            return inner\n        return {key for key in inner if not self._is_preset(key, options)}",
+     note="the filter is skipped whenever the caller's options already hold the pre-set values: a pinned key is then reported as the caller's")
+silent("withoptions-keys-unfiltered-when-nothing-preset", ["C02", "C01", "C03", "C08", "C11"], O,
+       "        return {\n            key\n            for key in self.evaluatable.keys(self._options(options))\n            if not self._is_preset(key, options)\n        }",
+       "        inner = self.evaluatable.keys(self._options(options))\n        if not self.options:\n            return inner\n        return {key for key in inner if not self._is_preset(key, options)}")
+fire("switch-explain-skips-dispatch-without-options", ["C11"], "R-XA", CO,
+     "        options = options or {}\n        try:\n            chosen = self._lookup(options)\n        except EvaluationError as e:",
+     "        options = options or {}\n        if not options and self.default is not MISSING:\n            return self.default.explain(options)\n        try:\n            chosen = self._lookup(options)\n        except EvaluationError as e:",
+     note="explain({}) reports the default branch although the dispatch may well be determined without options")
+fire("conditional-attaches-method-to-base-class", ["C04"], "R-GA", CO,
+     "    return CaseWhen(Evaluatable.ensure(dispatch), [])\n",
+     "    return CaseWhen(Evaluatable.ensure(dispatch), [])\n\n\ndef _when(self, condition, result):\n    return case(self).when(condition, result)\n\n\nEvaluatable.when = _when  # type: ignore\n",
+     note="every Namespace now answers .when itself: a member called `when` is unreachable")
+fire("interface-default-none-reaches-option", ["C12", "C04"], "R-MS", IF,
+     "def interface(dispatch: Union[Evaluatable[Hashable], str]) -> Callable[[T], \"T\"]:",
+     "def interface(dispatch: Union[Evaluatable[Hashable], str], default=None) -> Callable[[T], \"T\"]:",
+     also=[("    if isinstance(dispatch, str):\n        dispatch = Option(dispatch)\n\n    def wrapper(cls):", "    if isinstance(dispatch, str):\n        dispatch = Option(dispatch, default)\n\n    def wrapper(cls):")],
+     note="every string dispatch becomes an Option with default None: the missing key is never reported")
+silent("interface-default-none-guarded", ["C12", "C04", "C07"], IF,
+       "def interface(dispatch: Union[Evaluatable[Hashable], str]) -> Callable[[T], \"T\"]:",
+       "def interface(dispatch: Union[Evaluatable[Hashable], str], default=None) -> Callable[[T], \"T\"]:",
+       also=[("    if isinstance(dispatch, str):\n        dispatch = Option(dispatch)\n\n    def wrapper(cls):", "    if isinstance(dispatch, str):\n        dispatch = Option(dispatch) if default is None else Option(dispatch, default)\n\n    def wrapper(cls):")])
+fire("value-defines-getstate", ["C20"], "R-PL", T,
+     "class Apply(Generic[A, B], Evaluatable[B]):",
+     "def _value_getstate(self):\n    return dict(self.__dict__)\n\n\nclass Apply(Generic[A, B], Evaluatable[B]):",
+     also=[("    def evaluate(self, options: Options) -> A:\n        \"\"\"Return the wrapped value.\"\"\"", "    def __getstate__(self):\n        return dict(self.__dict__)\n\n    def __setstate__(self, state):\n        self.__dict__.update(state)\n\n    def evaluate(self, options: Options) -> A:\n        \"\"\"Return the wrapped value.\"\"\"")],
+     note="a pickling hook on a class that holds nothing pickle refuses: reported for a look")
